@@ -60,7 +60,7 @@ func init() {
 func dataShapes(tier string, maxTotal int) [][]int {
 	var out [][]int
 	fo := pick(tier, []int{0, 1, 15}, rng(0, 15))
-	fr := pick(tier, []int{0, 1, 15, 16, 17, 33, 222}, []int{0, 1, 2, 15, 16, 17, 31, 32, 33, 64, 128, 222, 230, 242})
+	fr := pick(tier, []int{0, 1, 15, 16, 17, 33, 222, 242}, []int{0, 1, 2, 15, 16, 17, 31, 32, 33, 64, 128, 222, 230, 233, 242})
 	for _, nfo := range fo {
 		for mode := 0; mode <= 2; mode++ {
 			for _, nfr := range fr {
@@ -255,6 +255,9 @@ func init() {
 		}
 		for _, l := range pick(tier, rng(1, 3), rng(1, 4)) {
 			it = append(it, Item{PkgKey: "root", Func: "VerifC07_Proprietary", Shape: []int{l}})
+		}
+		for _, sz := range []int{1, 2, 5} {
+			it = append(it, Item{PkgKey: "root", Func: "VerifC07_ProprietaryTwice", Shape: []int{sz}})
 		}
 		return it
 	}
@@ -635,7 +638,7 @@ func init() {
 func init() {
 	register(&PropSpec{
 		ID:   "C10",
-		Pkgs: []string{"root"},
+		Pkgs: []string{"root", "band"},
 		Items: func(tier string, seed int64) []Item {
 			var it []Item
 			for _, l := range pick(tier, rng(5, 24), rng(5, 40)) {
@@ -667,6 +670,18 @@ func init() {
 			it = append(it, Item{PkgKey: "root", Func: "VerifC10_ReuseCFList", Shape: []int{0}}, Item{PkgKey: "root", Func: "VerifC10_ReuseCFList", Shape: []int{1}})
 			for _, l := range rng(1, 3) {
 				it = append(it, Item{PkgKey: "root", Func: "VerifC10_Locks", Shape: []int{l}})
+			}
+			for mt := 0; mt < 4; mt++ {
+				for _, nfo := range []int{0, 3, 15} {
+					for _, nfr := range pick(tier, []int{0, 1, 15, 16, 17, 32}, []int{0, 1, 15, 16, 17, 31, 32, 33, 48, 64}) {
+						it = append(it, Item{PkgKey: "root", Func: "VerifC10_EncryptKeepsCaller", Shape: []int{mt, nfo, nfr}})
+					}
+				}
+			}
+			for n := 0; n < 14; n++ {
+				for _, steps := range pick(tier, []int{1, 2}, []int{1, 2, 3}) {
+					it = append(it, Item{PkgKey: "band", Func: "VerifC10_BandSharing", Shape: []int{n, steps}})
+				}
 			}
 			return it
 		},
